@@ -34,7 +34,7 @@ META = dict(
     stubs=['SymStr: str model with concrete length and symbolic code points', "str.join / str() on symbolic strings"],
     assumptions=['Python str semantics of +, replace, join, iteration, == as modelled by SymStr'],
     buckets=dict(all=['roundtrip-with-quote', 'roundtrip-with-slash', 'roundtrip-plain', 'injective-distinct-lengths',
-                      'e2e-witness', 'writer-object-paths']),
+                      'e2e-witness', 'writer-object-paths', 'e2e-near-aliases']),
     replays_per_signature=4,
     validate_samples=12,
 )
@@ -59,6 +59,7 @@ def tasks(tier, seed):
         if sum(s1_) + sum(s2_) <= (5 if tier == 'quick' else 7):
             ts.append(dict(kind='walias', a=list(s1_), b=list(s2_)))
     ts.sort(key=lambda t: -(sum(t.get('a', [])) + sum(t.get('b', [])) + (t.get('lg') or 0) + (t.get('lc') or 0)))
+    ts.append(dict(kind='nearalias'))
     return ts
 
 
@@ -102,6 +103,54 @@ def _e2e(names):
     ch = grp[c]
     if ch.name != c or ch.group_name != g or list(ch[:]) != [1, 2] or list(grp[c + "'"][:]) != [3]:
         return 'channel %r group %r data %r' % (ch.name, ch.group_name, list(ch[:]))
+    return None
+
+
+# Pairs of distinct names that well-known string foldings identify (unicode normalisation forms, compatibility characters,
+# case, surrounding whitespace, zero-width / NUL characters): concrete witnesses for "never confused with one another" in the
+# reader's and writer's dictionaries, which the solver cannot choose itself (it has no model of the unicode tables).
+NEAR_ALIASES = [('\u00e9', 'e\u0301'), ('\u2126', '\u03a9'), ('\u212b', '\u00c5'), ('\ufb01', 'fi'), ('\uff41', 'a'), ('A', 'a'),
+                ('\u00df', 'ss'), ('a ', 'a'), (' a', 'a'), ('a\t', 'a'), ('a\u200b', 'a'), ('a\x00', 'a'), ('a\n', 'a'),
+                ('\u0131', 'i'), ('\u1e9b\u0323', '\u1e9b\u0323'.encode('utf-8').decode('utf-8')[::-1]), ('\U0001d400', 'A'),
+                ('\ud55c', '\u1112\u1161\u11ab'), ('1', '\u0661'), ('a/', 'a'), ('', ' ')]
+
+
+def _e2e_pair(n1, n2):
+    """Concrete writer -> reader cycle of a file in which n1 and n2 both name groups and both name channels of one group;
+    eager and lazy. Returns error string or None."""
+    import io
+    import numpy as np
+    from nptdms import TdmsFile
+    from nptdms.writer import TdmsWriter, ChannelObject, GroupObject
+    buf = io.BytesIO()
+    with TdmsWriter(buf) as w:
+        w.write_segment([GroupObject(n1, {'who': 'first'}), ChannelObject(n1, 'c', np.array([1, 2], dtype=np.int32)),
+                         GroupObject(n2, {'who': 'second'}), ChannelObject(n2, 'c', np.array([3], dtype=np.int32)),
+                         ChannelObject('G', n1, np.array([4, 5, 6], dtype=np.int32)),
+                         ChannelObject('G', n2, np.array([7], dtype=np.int32))])
+    for mode in ('read', 'open'):
+        buf.seek(0)
+        tf = getattr(TdmsFile, mode)(buf)
+        gs = [x.name for x in tf.groups()]
+        if gs != [n1, n2, 'G'] or list(tf) != [n1, n2, 'G']:
+            return '%s: groups %r / iteration %r' % (mode, gs, list(tf))
+        if dict(tf[n1].properties) != {'who': 'first'} or dict(tf[n2].properties) != {'who': 'second'}:
+            return '%s: group properties %r %r' % (mode, dict(tf[n1].properties), dict(tf[n2].properties))
+        if tf[n1].name != n1 or tf[n2].name != n2 or tf[n1].path != _ref_path([n1]) or tf[n2].path != _ref_path([n2]):
+            return '%s: group name/path %r %r' % (mode, tf[n1].path, tf[n2].path)
+        if list(tf[n1]['c'][:]) != [1, 2] or list(tf[n2]['c'][:]) != [3]:
+            return '%s: group data %r %r' % (mode, list(tf[n1]['c'][:]), list(tf[n2]['c'][:]))
+        G = tf['G']
+        cs = [x.name for x in G.channels()]
+        if cs != [n1, n2] or list(G) != [n1, n2]:
+            return '%s: channels %r / iteration %r' % (mode, cs, list(G))
+        a, b = G[n1], G[n2]
+        if (a.name, a.group_name, a.path) != (n1, 'G', _ref_path(['G', n1])) or (b.name, b.path) != (n2, _ref_path(['G', n2])):
+            return '%s: channel name/path %r %r' % (mode, a.path, b.path)
+        if list(a[:]) != [4, 5, 6] or list(b[:]) != [7]:
+            return '%s: channel data %r %r' % (mode, list(a[:]), list(b[:]))
+        if (n1 in tf) is not True or (n2 in G) is not True:
+            return '%s: membership' % mode
     return None
 
 
@@ -242,7 +291,23 @@ def run_task(task):
                   lambda m: dict(names_a=_concrete(m, v1), names_b=_concrete(m, v2)), what='writer-path')
         ctx.note('writer-object-paths')
 
-    st = explore(dict(roundtrip=rt, injective=inj, walias=walias)[task['kind']], max_paths=400000, time_budget=1500)
+    def nearalias(ctx):
+        for n1, n2 in NEAR_ALIASES:
+            if n1 == n2:
+                continue
+            for x, y in ((n1, n2), (n2, n1)):
+                ctx.obligations += 1
+                try:
+                    err = _e2e_pair(x, y)
+                except Exception as e:
+                    err = repr(e)[:150]
+                if err:
+                    raise Violation(dict(what='near-alias', inputs=dict(names=[x, y]), names=[x, y], error=err))
+                ctx.discharged += 1
+        ctx.note('e2e-near-aliases')
+
+    st = explore(dict(roundtrip=rt, injective=inj, walias=walias, nearalias=nearalias)[task['kind']], max_paths=400000,
+                 time_budget=1500)
     st.pop('wall_s', None)
     if st['inconclusive'] and all('engine cannot carry' in x for x in st['inconclusive']):
         # rescue: exhaustive enumeration over the small alphabet (stated coverage hole, not a solver verdict)
@@ -342,6 +407,13 @@ def replay(art):
             if err:
                 return dict(sig=signature(dict(task=task, what='e2e')), names=names, error=err)
         return None
+    if task['kind'] == 'nearalias':
+        x, y = art['inputs']['names']
+        try:
+            err = _e2e_pair(x, y)
+        except Exception as e:
+            err = repr(e)[:200]
+        return dict(sig=signature(dict(task=task, what='near-alias')), names=[x, y], error=err) if err else None
     na = _names_from(art, 'a', task['a'])
     nb = _names_from(art, 'b', task['b'])
     if task['kind'] == 'walias':
